@@ -94,6 +94,20 @@ func init() {
 		Assume: []string{"schedules are not explored: what is decided is lock ownership at every access site on every control-flow path"},
 	})
 	reg(&PropDef{
+		ID:    "C18",
+		Level: "proof",
+		Funcs: []string{"tcell.(*simscreen).postEvent", "tcell.(*simscreen).InjectKey", "tcell.(*simscreen).InjectMouse", "tcell.(*simscreen).InjectKeyBytes",
+			"tcell.(*simscreen).showCursor", "tcell.(*simscreen).hideCursor", "tcell.(*simscreen).ShowCursor", "tcell.(*simscreen).GetCursor",
+			"tcell.(*simscreen).resize", "tcell.(*simscreen).SetSize", "tcell.(*simscreen).clearScreen", "tcell.(*simscreen).drawCell", "tcell.(*simscreen).draw", "tcell.(*simscreen).Show"},
+		Custom: []func(*PropRun){c18Replays},
+		Trusted: []string{"transform.Transformer.Transform writes only into dst, returns counts within bounds and produces no output without consuming input (assumed interface contract); which bytes a charset produces is not modelled",
+			"utf8.EncodeRune returns 1..4 and writes only into its buffer (assumed)", "Go channels are FIFO: events come out of PollEvent in the order postEvent offered them (assumed)"},
+		Assume: []string{"cell widths are non-negative (CellBuffer invariant; stated precondition of drawCell/draw/Show)",
+			"Show is proved for the case without a pending resize; SetSize/resize are proved separately; Sync is not under contract",
+			"draw: that every changed cell is visited is proved for buffers without wide cells; per-cell fidelity is drawCell's contract, its composition over the whole scan (front == view of back for every cell) is not proved",
+			"InjectKeyBytes: the contract proves that no byte is declared undecodable before every prefix has been offered, termination, and memory safety; the exact event per character depends on the decoder (assumed contract)"},
+	})
+	reg(&PropDef{
 		ID:       "C19",
 		Level:    "proof",
 		WasmLoad: true,
@@ -376,3 +390,76 @@ const wasmStubs = `//verif:wasm
 	for _, n := range []string{"drawCell", "clearScreen", "show", "showCursor", "resize", "beep", "setTitle", "setCursorStyle"} {
 		js.Global().Set(n, js.FuncOf(func(this js.Value, args []js.Value) interface{} { return nil }))
 	}`
+
+// c18Replays attaches hand-written demonstrations (run on the real code) to the C18 obligations that have failed before.
+func c18Replays(run *PropRun) {
+	for _, g := range run.Groups {
+		switch g.Name {
+		case "tcell.(*simscreen).SetSize/ensures#resize-event":
+			g.ReplayGo = replayTest("tcell", nil, `
+	s := NewSimulationScreen("").(*simscreen)
+	if err := s.Init(); err != nil { fail("init: %v", err); return }
+	s.Show()
+	for len(s.evch) > 0 { <-s.evch }
+	s.SetSize(30, 10)
+	s.Show()
+	select {
+	case ev := <-s.evch:
+		if rs, ok := ev.(*EventResize); ok {
+			if w, h := rs.Size(); w != 30 || h != 10 { fail("resize event carries %dx%d, want 30x10", w, h); return }
+		} else { fail("unexpected event %T", ev); return }
+	default:
+		fail("SetSize(30,10) followed by Show() produced no resize event")
+		return
+	}`)
+		case "tcell.(*simscreen).InjectKeyBytes/loop1/invariant-preserved#nb":
+			g.ReplayGo = replayTest("tcell", nil, `
+	s := NewSimulationScreen("UTF-8").(*simscreen)
+	if err := s.Init(); err != nil { fail("init: %v", err); return }
+	ok := s.InjectKeyBytes([]byte("a\xc3\xa9"))
+	var got []rune
+	for len(s.evch) > 0 {
+		if k, isKey := (<-s.evch).(*EventKey); isKey { got = append(got, k.Rune()) }
+	}
+	if !ok || string(got) != "a\u00e9" {
+		fail("InjectKeyBytes(\"a\\xc3\\xa9\") = %v, delivered %q: the multi-byte character at the end is not decoded", ok, string(got))
+		return
+	}`)
+		case "tcell.(*simscreen).postEvent/calls#never-drops", "tcell.(*simscreen).postEvent/ensures#one-select":
+			g.ReplayGo = replayTest("tcell", []string{"time"}, `
+	s := NewSimulationScreen("").(*simscreen)
+	if err := s.Init(); err != nil { fail("init: %v", err); return }
+	go func() {
+		for i := 0; i < 12; i++ { s.InjectKey(KeyRune, rune('a'+i), ModNone) }
+	}()
+	time.Sleep(100 * time.Millisecond) // the injector is now ahead of the (absent) poller: the queue holds 10 events
+	n := 0
+	deadline := time.After(2 * time.Second)
+loop:
+	for n < 12 {
+		select {
+		case <-s.evch:
+			n++
+		case <-deadline:
+			break loop
+		}
+	}
+	if n != 12 {
+		fail("only %d of 12 injected events were delivered: events are dropped when the queue is full", n)
+		return
+	}`)
+		case "tcell.(*simscreen).drawCell/calls#elided":
+			g.ReplayGo = replayTest("tcell", nil, `
+	s := NewSimulationScreen("US-ASCII").(*simscreen)
+	if err := s.Init(); err != nil { fail("init: %v", err); return }
+	s.RegisterRuneFallback(0x0301, "'")
+	s.SetContent(0, 0, 'a', []rune{0x0301}, StyleDefault)
+	s.Show()
+	cells, _, _ := s.GetContents()
+	if string(cells[0].Bytes) != "a" {
+		fail("cell 'a'+U+0301 (unencodable combining mark with a registered fallback) shows bytes %q; a real screen elides it: \"a\"", string(cells[0].Bytes))
+		return
+	}`)
+		}
+	}
+}
